@@ -109,7 +109,7 @@ CLAIMS = {
                 "same mask on both arrays; every mean over a selection is guarded against emptiness; each task builds its metric lists from "
                 "its own tables at the right level under its own name; the per-item results and the truth / score rows a task function "
                 "returns are accumulated in lock-step (same loops, same conditions). Metric values vs independent formulas / order independence not decided.",
-        "design_ref": "DESIGN.md section 3, C09 (R09.1-R09.5); R09.6 in section 8.8",
+        "design_ref": "DESIGN.md section 3, C09 (R09.1-R09.5); R09.6 in section 8.8; rank rule of the unlabelled mask (F18) in section 8.11",
         "note": NOTE_COMMON,
         "technique": "table-row agreement over resolved names; sibling cross-check of wrapper summaries as canonical terms; guard-dominance rule for means",
     },
